@@ -67,6 +67,10 @@ var c17Ports = []string{"", "", "", ":80", ":8080", ":443", ":", ":0", ":65535"}
 
 func c17URL(c *core.Ctx, host string) string {
 	var sb strings.Builder
+	if c.Rng.Intn(40) == 0 {
+		// A host name of the maximum legal length, or one byte less.
+		host = []string{gen.Host253, gen.Host252, "www." + gen.Host253[4:]}[c.Rng.Intn(3)]
+	}
 	scheme := gen.Schemes[c.Rng.Intn(len(gen.Schemes))]
 	if c.Rng.Intn(8) == 0 {
 		// Every scheme of RFC 3986: letters, digits, '+', '-', '.'.
